@@ -288,7 +288,19 @@ def gen_io_cases(ctx, out):
             nr, nc = rand_shape(rng)
             if sym: nc = nr
             tr = rand_io_triples(rng, nr, nc, rng.randint(0, 2 * max(nr, nc)))
-            if sym: tr = [(max(i, j), min(i, j), v) for (i, j, v) in tr]
+            if sym:
+                # one stored entry per unordered pair; stored in the lower triangle (the format's convention) or, for half of
+                # the files, in either triangle (both readers mirror whatever off-diagonal entry they are given)
+                tr = list({(max(i, j), min(i, j)): (max(i, j), min(i, j), v) for (i, j, v) in tr}.values())
+                if rng.random() < 0.5:
+                    tr = [((j, i, v) if rng.random() < 0.6 else (i, j, v)) for (i, j, v) in tr]
+                    # upper entries whose global row equals the column's offset inside its owner's block (local numbering
+                    # makes them look diagonal)
+                    pp = default_partition(nr, nc, P)
+                    for (fr_, nr_, fc_, nc_) in pp[1:]:
+                        for r_ in range(min(nc_, 2)):
+                            if fc_ + r_ < nc and r_ < fc_ + r_ and not any((a, b) in ((r_, fc_ + r_), (fc_ + r_, r_)) for (a, b, _) in tr):
+                                tr.append((r_, fc_ + r_, rng.choice(VALS)))
             tr = list({(i, j): (i, j, v) for (i, j, v) in tr}.values())
             rng.shuffle(tr)
             extra = [(rng.randrange(nr), rng.randrange(nc), Fraction(9))] if (tr and rng.random() < 0.1) else []   # line beyond nz: ignored
